@@ -11,6 +11,7 @@ import (
 	"path/filepath"
 	"runtime"
 	"strconv"
+	"strings"
 	"sync"
 	"time"
 
@@ -37,6 +38,8 @@ type c12Result struct {
 	Distinct            []string         `json:"distinct"`
 	Samples             []interface{}    `json:"samples"`
 	Viol                []c09Viol        `json:"violations"`
+	hangs               int
+	outPath             string
 }
 
 func (res *c12Result) add(v c09Viol) {
@@ -48,6 +51,15 @@ func (res *c12Result) add(v c09Viol) {
 	}
 	if n < 6 {
 		res.Viol = append(res.Viol, v)
+	}
+	// a call that never returns keeps a core busy for good: after three of them the batch ends here with what it has
+	if strings.HasSuffix(v.Kind, "_panic_or_hang") && strings.Contains(v.Text, "hung=true") {
+		if res.hangs++; res.hangs >= 3 && res.outPath != "" {
+			res.Samples = append(res.Samples, "batch ended early: three calls did not return")
+			buf, _ := json.Marshal(res)
+			os.WriteFile(res.outPath, buf, 0644)
+			os.Exit(0)
+		}
 	}
 }
 
@@ -96,6 +108,7 @@ func c12Child(args []string) {
 	rnd := rand.New(rand.NewSource(seed))
 	res := &c12Result{Encoded: map[string]int64{}, Decoded: map[string]int64{}, MaxRatio: map[string]int{}, Malformed: map[string]int64{}, Variants: map[string]int64{}}
 	res.GoroutinesB = runtime.NumGoroutine()
+	res.outPath = out
 	pf, _ := os.OpenFile(prog, os.O_CREATE|os.O_RDWR, 0644)
 	idx := int64(0)
 	mark := func() {
